@@ -348,6 +348,7 @@ def handle_violation(
         "tier": tier,
         "seed_tag": seed_tag,
         "pythonhashseed": os.environ.get("PYTHONHASHSEED"),
+        "python_optimize": sys.flags.optimize,
         "engine_version": ENGINE_VERSION,
         "config": _brief_cfg(cfg),
         "ops": best,
@@ -410,12 +411,22 @@ def replay_file(path: str, quiet=False) -> int:
     with open(path) as fp:
         replay = json.load(fp)
     want_hash = replay.get("pythonhashseed")
+    want_opt = int(replay.get("python_optimize") or 0)
     if (
-        want_hash is not None
-        and os.environ.get("PYTHONHASHSEED") != str(want_hash)
+        (
+            (want_hash is not None
+             and os.environ.get("PYTHONHASHSEED") != str(want_hash))
+            or sys.flags.optimize != want_opt
+        )
         and not os.environ.get("SIMLAB_REEXEC")
     ):
-        env = dict(os.environ, PYTHONHASHSEED=str(want_hash), SIMLAB_REEXEC="1")
+        # same process environment as the run that found it
+        env = dict(os.environ, SIMLAB_REEXEC="1")
+        if want_hash is not None:
+            env["PYTHONHASHSEED"] = str(want_hash)
+        env.pop("PYTHONOPTIMIZE", None)
+        if want_opt:
+            env["PYTHONOPTIMIZE"] = str(want_opt)
         os.execve(PYTHON, [PYTHON] + sys.argv, env)
     prop = replay["property"]
     m = sim_kind(prop)
